@@ -188,12 +188,62 @@ def run_parallel(binp, cases, jobs):
     return merged
 
 
+def run_driver(cases):
+    """the Lean driver is a pure line-by-line function: large suites are cut into contiguous blocks
+    that run in parallel; the output order is the input order"""
+    import concurrent.futures
+    nblk = 1 if len(cases) < 4000 else min(12, (len(cases) + 3999) // 4000)
+    size = (len(cases) + nblk - 1) // nblk
+    blocks = [cases[i:i + size] for i in range(0, len(cases), size)] or [[]]
+
+    def work(blk):
+        if not blk:
+            return []
+        rc, mod = run([DRIVER_BIN], inp="\n".join(blk) + "\n", timeout=7200)
+        ml = mod.splitlines()
+        if rc != 0 or len(ml) != len(blk):
+            ml = []
+            for c in blk:      # one bad line must not take the rest of the block with it
+                rc1, o1 = run([DRIVER_BIN], inp=c + "\n", timeout=600)
+                l1 = o1.splitlines()
+                ml.append(l1[0] if rc1 == 0 and len(l1) == 1 else "driver-died ## driver-died")
+        return ml
+    out = []
+    with concurrent.futures.ThreadPoolExecutor(max_workers=nblk) as ex:
+        for res in ex.map(work, blocks):
+            out.extend(res)
+    return out
+
+
 def run_cases(cases, which="core", jobs=1):
     """returns (impl lines, model lines, spec lines)"""
     inp = "\n".join(cases) + "\n"
     binp = FFI_BIN if which == "ffi" else HARNESS_BIN
     if jobs > 1 and len(cases) > 1:
         impl_lines = run_parallel(binp, cases, jobs)
+        rc = 0
+    elif len(cases) >= 8000:
+        # virtual-time suites: every case runs in a fresh runtime, so contiguous blocks can run in
+        # parallel processes without changing any result
+        import concurrent.futures
+        nblk = min(12, (len(cases) + 3999) // 4000)
+        size = (len(cases) + nblk - 1) // nblk
+        blocks = [cases[i:i + size] for i in range(0, len(cases), size)]
+
+        def work(blk):
+            rc1, o1 = run([binp], inp="\n".join(blk) + "\n", timeout=7200)
+            ol = marked(o1)
+            if rc1 != 0 or len(ol) != len(blk):
+                ol = []
+                for c in blk:
+                    rc2, o2 = run([binp], inp=c + "\n", timeout=600)
+                    l2 = marked(o2)
+                    ol.append(l2[0] if rc2 == 0 and len(l2) == 1 else "harness-died")
+            return ol
+        impl_lines = []
+        with concurrent.futures.ThreadPoolExecutor(max_workers=nblk) as ex:
+            for res in ex.map(work, blocks):
+                impl_lines.extend(res)
         rc = 0
     else:
         rc, impl = run([binp], inp=inp, timeout=3600)
@@ -205,10 +255,7 @@ def run_cases(cases, which="core", jobs=1):
             rc1, o = run([binp], inp=c + "\n", timeout=600)
             ol = marked(o)
             impl_lines.append(ol[0] if rc1 == 0 and len(ol) == 1 else "harness-died")
-    rc, mod = run([DRIVER_BIN], inp=inp, timeout=3600)
-    mlines = mod.splitlines()
-    if rc != 0 or len(mlines) != len(cases):
-        mlines = ["driver-died ## driver-died"] * len(cases)
+    mlines = run_driver(cases)
     model, spec = [], []
     for l in mlines:
         a, _, b = l.partition(" ## ")
